@@ -190,7 +190,7 @@ fn c15_fmt_parse_s211() {
 // @bound format specs in UTF-8 shape [1,1,1,1] over {< ^ > 0 1 9 . ? x e close-brace space a} and 2-byte slots {U+00E9, U+0301}
 // @assume ConstantPoolBuilder::add_string replaced by a stub that accepts every string (the pool is a HashMap; not the subject)
 // @timeout 1500
-// @mem 8
+// @mem 16
 // @kani --no-memory-safety-checks --no-assertion-reach-checks
 #[kani::proof]
 #[kani::unwind(6)]
